@@ -344,7 +344,7 @@ def main(prop_id, tier='quick', replay=None):
         got = agg['labels'].get(lab, 0) / max(1, total_ok)
         # the floors in the modules are the fractions the generators were tuned to; the alarm level is 60 % of them
         # so that seed-to-seed variation of the smaller classes does not stop a run
-        if got < 0.6 * frac and n_examples >= 200:
+        if got < 0.6 * frac and n_examples >= 200 and total_ok >= 200:
             floor_err.append('label %s: %.3f < floor %.3f' % (lab, got, frac))
 
     # evidence
